@@ -279,4 +279,38 @@ Proof.
   intros second _. destruct second; apply Succ_ok.
 Qed.
 
+
+(* ------------------------------------------------------------------ lift_target *)
+Lemma can_cut_ok n a b : V n -> is_elem n -> Succeeds (can_cut s n a b).
+Proof.
+  intros Hv He. unfold can_cut. apply Succ_bind.
+  { destruct (a =? 0); [apply Succ_ok|apply can_replace_ok; assumption]. }
+  intros x _. destruct x; [|apply Succ_ok]. destruct (b =? nchildren n); [apply Succ_ok|apply can_replace_ok; assumption].
+Qed.
+
+Lemma lift_target_go_ok r content : VP (nr_from r) -> VP (nr_to r) ->
+  forall fuel depth, depth <= rp_depth (nr_from r) -> depth <= rp_depth (nr_to r) -> depth < fuel ->
+  Succeeds (lift_target_go s fuel r content depth).
+Proof.
+  intros Hf Ht. induction fuel as [|fuel IH]; intros depth D1 D2 Hfu; [lia|]. cbn [lift_target_go].
+  destruct (VP_at (nr_from r) depth Hf D1) as (n & i & En & Ei & Hv & He & _). rewrite En, Ei. cbn [bind].
+  destruct (VP_at (nr_to r) depth Ht D2) as (n2 & i2 & _ & Ei2 & _). unfold rp_index_after. rewrite Ei2. cbn [bind].
+  apply Succ_bind.
+  { destruct (depth <? nr_depth r); [apply can_replace_ok; assumption|apply Succ_ok]. }
+  intros fits _. destruct fits; [apply Succ_ok|]. destruct ((depth =? 0) || isolating s n) eqn:E; [apply Succ_ok|].
+  apply orb_false_elim in E. destruct E as [E0 _]. apply Nat.eqb_neq in E0.
+  apply Succ_bind; [apply can_cut_ok; assumption|]. intros cc _. destruct (negb cc); [apply Succ_ok|]. apply IH; lia.
+Qed.
+
+(* a node range as ResolvedPos.block_range builds it: two resolved positions of a valid document and a depth both reach *)
+Theorem lift_target_never_crashes r :
+  VP (nr_from r) -> VP (nr_to r) -> nr_depth r <= rp_depth (nr_from r) -> nr_depth r <= rp_depth (nr_to r) ->
+  Succeeds (lift_target s r).
+Proof.
+  intros Hf Ht D1 D2. unfold lift_target, nr_parent, nr_start_index, nr_end_index.
+  destruct (VP_at (nr_from r) (nr_depth r) Hf D1) as (n & i & En & Ei & _). rewrite En, Ei. cbn [bind].
+  destruct (VP_at (nr_to r) (nr_depth r) Ht D2) as (n2 & i2 & _ & Ei2 & _). unfold rp_index_after. rewrite Ei2. cbn [bind].
+  apply lift_target_go_ok; auto.
+Qed.
+
 End WithSchema.
